@@ -675,7 +675,7 @@ def enumerate_formspace(chk=None, facets=False, exprs=False, complex_terms=False
         return _FS_CACHE[2]
     if facets:
         return _FS_CACHE[1]
-    return [c for c in _FS_CACHE[0] if complex_terms or c["term"] not in ("cplx", "cmathfn")]   # need a complex scalar type
+    return [c for c in _FS_CACHE[0] if complex_terms or c["term"] not in ("cplx", "cmathfn", "ccond")]   # need a complex scalar type
 
 
 _NDOF = {"P1": 1, "P2": 3, "P3": 6, "DG0": 0.4, "DG1": 1, "vP1": 2.5, "vP2": 7, "symP1": 3, "TH": 8, "RT1": 1, "N1": 1.5,
@@ -779,7 +779,7 @@ def run_items(chk, items, nworkers=4, module_size=8):
             for sk in mm["skipped"]:
                 out.append({"item": ids[sk["item"]], "status": "skipped", "why": sk["why"],
                             "ffcx_error": sk.get("ffcx_error", False), "missing_kernel": sk.get("missing_kernel", False),
-                            "numba_error": sk.get("numba_error"),
+                            "numba_error": sk.get("numba_error"), "history_error": sk.get("history_error", False),
                             "tb": sk.get("tb", "")})
             for m in mm["meas"]:
                 if m["case"] is None:
